@@ -559,30 +559,39 @@ func init() {
 					r.AnchorMissing("tars.(*filters)." + name)
 					continue
 				}
-				// the wrap loop in the returned closure counts down from len-1 to 0
+				// the wrap loop applies the middlewares from index len-1 down to 0: the index of the applied
+				// element is an affine function of the loop counter that starts at len-1 and decreases by one
 				okk := false
 				eachInstrDeep(fn, func(g *ssa.Function, in ssa.Instruction) {
-					phi, ok := in.(*ssa.Phi)
-					if !ok || len(phi.Edges) != 2 {
+					c, ok := in.(*ssa.Call)
+					if !ok || c.Call.IsInvoke() || c.Call.StaticCallee() != nil {
 						return
 					}
-					var start, step ssa.Value
-					for _, e := range phi.Edges {
-						if bo, ok := e.(*ssa.BinOp); ok && bo.X == ssa.Value(phi) {
-							step = bo
-						} else {
-							start = e
-						}
-					}
-					if start == nil || step == nil {
+					u, ok := c.Call.Value.(*ssa.UnOp)
+					if !ok || u.Op != token.MUL {
 						return
 					}
-					sb, ok1 := start.(*ssa.BinOp)
-					st := step.(*ssa.BinOp)
-					if ok1 && sb.Op == token.SUB && strings.HasPrefix(pathOf(sb.X), "len(") && st.Op == token.SUB {
-						if k, ok := constInt(st.Y); ok && k == 1 {
-							okk = true
-						}
+					ia, ok := u.X.(*ssa.IndexAddr)
+					if !ok {
+						return
+					}
+					isLen := func(v ssa.Value) bool {
+						lc, ok := v.(*ssa.Call)
+						return ok && builtinName(&lc.Call) == "len" && pathOf(lc.Call.Args[0]) == pathOf(ia.X)
+					}
+					idx, ok := affEval(ia.Index, isLen)
+					if !ok || idx.phi == nil {
+						return
+					}
+					start, step, ok := phiStartStep(idx.phi, isLen)
+					if !ok {
+						return
+					}
+					// first index: idx with phi := start
+					firstL := idx.l + idx.c*start.l
+					firstK := idx.k + idx.c*start.k
+					if firstL == 1 && firstK == -1 && idx.c*step == -1 {
+						okk = true
 					}
 				})
 				r.Check(okk, fname(fn), "middleware wrap order", fn.Pos(), "wraps from the last registered to the first (first registered is outermost)", "the middleware chain is not built by wrapping from the last registered middleware to the first: filters run in reverse registration order")
@@ -639,12 +648,14 @@ func init() {
 				if !ok || !strings.HasSuffix(typeID(base.Type()), "tars.Error") || fv.Name() != "Code" {
 					return
 				}
-				if strings.HasSuffix(pathOf(st.Val), ".Resp.IRet") {
-					// and Message ← SResultDesc in the same literal
+				if _, n1, b1, ok := loadedField(st.Val); ok && n1 == "IRet" && strings.HasSuffix(typeID(b1.Type()), "requestf.ResponsePacket") {
+					// and Message ← SResultDesc of the same response in the same literal
 					for _, j := range in.Block().Instrs {
 						if s2, ok := j.(*ssa.Store); ok {
-							if f2, _, ok := fieldAddrOf(s2.Addr); ok && f2.Name() == "Message" && strings.HasSuffix(pathOf(s2.Val), ".Resp.SResultDesc") {
-								okMap = true
+							if f2, _, ok := fieldAddrOf(s2.Addr); ok && f2.Name() == "Message" {
+								if _, n2, b2, ok := loadedField(s2.Val); ok && n2 == "SResultDesc" && (b1 == b2 || pathOf(b1) == pathOf(b2)) {
+									okMap = true
+								}
 							}
 						}
 					}
@@ -667,4 +678,111 @@ func subsetCSV(a, b string) bool {
 		}
 	}
 	return a != ""
+}
+
+// aff is l*len + c*phi + k.
+type aff struct {
+	l, c, k int64
+	phi     *ssa.Phi
+}
+
+// affEval evaluates v as an affine expression of one loop-header phi and of len(x) (isLen).
+func affEval(v ssa.Value, isLen func(ssa.Value) bool) (aff, bool) {
+	switch x := v.(type) {
+	case *ssa.Const:
+		if k, ok := constInt(x); ok {
+			return aff{k: k}, true
+		}
+	case *ssa.Convert:
+		if wideningConv(x) {
+			return affEval(x.X, isLen)
+		}
+	case *ssa.Phi:
+		if _, _, ok := phiStartStep(x, isLen); ok {
+			return aff{c: 1, phi: x}, true
+		}
+	case *ssa.BinOp:
+		if x.Op == token.ADD || x.Op == token.SUB {
+			a, ok1 := affEval(x.X, isLen)
+			b, ok2 := affEval(x.Y, isLen)
+			if !ok1 || !ok2 || (a.phi != nil && b.phi != nil && a.phi != b.phi) {
+				return aff{}, false
+			}
+			sg := int64(1)
+			if x.Op == token.SUB {
+				sg = -1
+			}
+			r := aff{l: a.l + sg*b.l, c: a.c + sg*b.c, k: a.k + sg*b.k, phi: a.phi}
+			if r.phi == nil {
+				r.phi = b.phi
+			}
+			return r, true
+		}
+	}
+	if isLen(v) {
+		return aff{l: 1}, true
+	}
+	return aff{}, false
+}
+
+// phiStartStep: phi = [start, phi ± const] (a loop counter); start affine in len.
+func phiStartStep(phi *ssa.Phi, isLen func(ssa.Value) bool) (start aff, step int64, ok bool) {
+	if len(phi.Edges) != 2 {
+		return aff{}, 0, false
+	}
+	var sv ssa.Value
+	found := false
+	for _, e := range phi.Edges {
+		if bo, isB := e.(*ssa.BinOp); isB && bo.X == ssa.Value(phi) && (bo.Op == token.ADD || bo.Op == token.SUB) {
+			if k, isK := constInt(bo.Y); isK {
+				step = k
+				if bo.Op == token.SUB {
+					step = -k
+				}
+				found = true
+				continue
+			}
+		}
+		sv = e
+	}
+	if !found || sv == nil {
+		return aff{}, 0, false
+	}
+	if p, isP := sv.(*ssa.Phi); isP && p == phi {
+		return aff{}, 0, false
+	}
+	st, ok2 := affEvalNoPhi(sv, isLen)
+	if !ok2 {
+		return aff{}, 0, false
+	}
+	return st, step, true
+}
+
+func affEvalNoPhi(v ssa.Value, isLen func(ssa.Value) bool) (aff, bool) {
+	switch x := v.(type) {
+	case *ssa.Const:
+		if k, ok := constInt(x); ok {
+			return aff{k: k}, true
+		}
+	case *ssa.Convert:
+		if wideningConv(x) {
+			return affEvalNoPhi(x.X, isLen)
+		}
+	case *ssa.BinOp:
+		if x.Op == token.ADD || x.Op == token.SUB {
+			a, ok1 := affEvalNoPhi(x.X, isLen)
+			b, ok2 := affEvalNoPhi(x.Y, isLen)
+			if ok1 && ok2 {
+				sg := int64(1)
+				if x.Op == token.SUB {
+					sg = -1
+				}
+				return aff{l: a.l + sg*b.l, k: a.k + sg*b.k}, true
+			}
+		}
+	}
+	if isLen(v) {
+		return aff{l: 1}, true
+	}
+	return aff{}, false
 }
